@@ -84,6 +84,17 @@ fn adversarial(bytes: &[u8], triggers: bool) -> (String, usize) {
             4 => format!("print({}[{}..{}]);", v(&mut rd), v(&mut rd), v(&mut rd)),
             5 | 6 | 7 => format!("print({}.{}({}));", v(&mut rd), rd.pick_str(NAMES), args(&mut rd)),
             8 => format!("print({}.{});", v(&mut rd), rd.pick_str(NAMES)),
+            9 if rd.flag() => {
+                // the receiver is also (inside) an argument
+                let x = v(&mut rd);
+                let wrap = match rd.below(4) {
+                    0 => format!("[{}]", x),
+                    1 => format!("({}, 1)", x),
+                    _ => x.clone(),
+                };
+                let extra = if rd.flag() { format!(", {}", v(&mut rd)) } else { String::new() };
+                format!("print({}.{}({}{}));", x, rd.pick_str(NAMES), wrap, extra)
+            }
             9 => format!("{}.{} = {};", v(&mut rd), rd.pick_str(NAMES), v(&mut rd)),
             10 => format!("print({}({}));", v(&mut rd), args(&mut rd)),
             11 => format!("for x{} in {} {{ print(x{}); break; }}", i, v(&mut rd), i),
@@ -169,7 +180,7 @@ impl C02 {
                 p.guard = 14;
                 let (prog, _) = gen::program(bytes, p);
                 let r = crate::prelude::run_program(&prog, &crate::prelude::RefCfg::default());
-                if matches!(r.end, crate::prelude::RefEnd::Discard(_)) {
+                if matches!(r.end, crate::prelude::RefEnd::Discard(_)) || !crate::props::diffprop::trigger_suffix(&r.events).is_empty() {
                     return None;
                 }
                 crate::astutil::fix_lambda_names(&prog);
